@@ -3115,6 +3115,10 @@ void SGXMLScanner::scanReset(const InputSource& src)
     fMemoryManager->deallocate(fRootElemName);//delete [] fRootElemName;
     fRootElemName = 0;
 
+    // The declarations faulted in for undeclared elements belong to the
+    // previous document (they carry its prefixes)
+    fElemNonDeclPool->removeAll();
+
     // Reset IdentityConstraints
     if (fICHandler)
         fICHandler->reset();
